@@ -152,8 +152,9 @@ class Extractor:
         if k == "MethodCall" and e["m"] in ("clone", "as_str") and not e["args"]:
             return self.value(e["recv"], env)
         if k == "Path":
-            c = getattr(self.facts, "consts", {}).get(e.get("rid") or e.get("id"))
-            if c is not None:
+            c = getattr(self.facts, "consts", {}).get(e.get("rid") or e.get("id")) or \
+                getattr(self.facts, "consts_by_path", {}).get(str(e.get("path")))
+            if c is not None and str(e.get("res", "")).startswith(("Const", "Static")):
                 return self.value(c["body"], {})     # a named constant: its initialiser
         if k in ("Call", "Closure", "Path"):
             return ("term", self.parser(e, env))
